@@ -726,3 +726,22 @@ def alarm_reaching_def_match(src):
         case _:
             pass
     g.width = 1
+
+
+def _guard_then_rebind_later(tbl, value, other):
+    if isinstance(value, str):
+        tbl["k"] = value  # still the string
+        value = other
+        tbl["j"] = value  # no longer
+
+
+def ok_guard_prefix_before_rebind(src):
+    tbl = {}
+    _guard_then_rebind_later(tbl, src.lib["x"], 1)
+    tbl["k"].append(1)
+
+
+def alarm_guard_prefix_after_rebind(src):
+    tbl = {}
+    _guard_then_rebind_later(tbl, src.lib["x"], src.lib["y"])
+    tbl["j"].append(1)
